@@ -26,7 +26,7 @@ META = {
     'C08': dict(
         text="Kernel-checked theorems (lean/XV/Props/C08.lean): merkle_binds (lists of equal length and hash-width leaves with the same root are equal unless the two tree computations contain a hash collision; merkle_needs_equal_length / merkle_needs_equal_width show both side conditions are necessary), merkle_leafsize (padding = next power of two for every n>=1), gen_schema_is_model + blockid_covers + blockid_fields_classified (the write sequence regenerated from MakeBlockID is the modelled one, names every field the property lists, and every InternalBlock field is classified hashed/unhashed; all by decide over Gen), single_field_mutation_changes_preimage (+ per-field instances; two_field_shift_collides refutes full injectivity of the undelimited concatenation), verify_binds_body and same_id_same_body (any other body is rejected; the count in the id discharges the equal-length hypothesis), header_mutation_rejected, reid_rejected, resign_rejected, formatted_verifies (n>=1, non-empty PreHash), accept_implies_bound; the merkle tree carried in the message is part of the model: carried_tree_unhashed (outside the id, hence outside the signature), carried_tree_bound / carried_tree_tamper_rejected (a block passes only if the array it carries is the tree of its body; any rewriting of it alone is rejected), merkleTree_leaves + stored_body_is_verified_body (the body queryBlock lists from the stored tree is exactly the verified ordered transaction list), verify_binds_body_whatever_tree (replacing the body AND rewriting the carried tree in any way is rejected like the body change alone), formatted_carries_its_tree; as found the statement was false: stored_body_is_verified_body_as_found_counterexample, carried_tree_ignored_as_found. All full strength w.r.t. the model of the repaired code (three fix: commits in VerifyMerkle: count, txid width, carried tree). Tie: schema regenerated every run and interpreted in Go against ledger.MakeBlockID; Lean pre-image = interpreter bytes; whole MakeMerkleTree array for n<=300; every single mutation of node-formatted blocks through the real Ledger.VerifyBlock and the Lean verifyBlock, each body mutation also as a coordinated tamper with the carried tree (leaves rewritten to the new txids with inner nodes and root kept; the k lowest levels recomputed and everything above kept; every node below the root recomputed and the signed root put back), the carried tree alone (leaves swapped, doubled, altered, tree dropped), and stored=1 lines: a (mutated) block that passes on the tip of a second ledger is confirmed and read back from storage the way state.Walk does (FindUndoAndTodoBlocks); the served body must be the verified one.",
         design_ref='DESIGN.md §6 C08',
-        note="Trusted: Lean kernel, go/extract, the harness. SHA-256/ECDSA/address derivation are abstract in the model (explicit hypotheses: no collision among the hashed inputs, one key per address, no forgery). Observations, not violations (printed in evidence notes): Height, FailedTxs keys and TargetBits <= 0 are outside the id (the carried MerkleTree is outside the id too, but since fix 1da438b it is checked against the body); two-field boundary shifts of neighbouring variable-length fields keep the id; VerifyBlock does not look at transaction content (txid recomputation is C07) nor at the proposer's entitlement (C16); a formatted block with 0 transactions or empty PreHash does not verify. Not covered: consensus CheckMinerMatch wrappers.",
+        note="Trusted: Lean kernel, go/extract, the harness. SHA-256/ECDSA/address derivation are abstract in the model (explicit hypotheses: no collision among the hashed inputs, one key per address, no forgery). Observations, not violations (printed in evidence notes): Height, FailedTxs keys and TargetBits <= 0 are outside the id (the carried MerkleTree is outside the id too, but since fix 29e758b it is checked against the body); two-field boundary shifts of neighbouring variable-length fields keep the id; VerifyBlock does not look at transaction content (txid recomputation is C07) nor at the proposer's entitlement (C16); a formatted block with 0 transactions or empty PreHash does not verify. Not covered: consensus CheckMinerMatch wrappers.",
         technique='Lean 4 proof over a hand model + schema regenerated from source by go/ast; differential correspondence and single-mutation and coordinated body+carried-tree mutation harness on the real VerifyBlock',
     ),
 }
